@@ -125,12 +125,62 @@ def check_c12(tier, only_cases=None):
                    "the conforming-server part over real transports is part of the C06/C07 driver"],
                   lambda k: cases[k] if isinstance(k, int) and k < len(cases) else None, trace)
 
+# ------------------------------------------------------------------------------------------
+def check_c13(tier, only_cases=None):
+    t0 = time.time(); prop = "C13"
+    verdict = Verdict(prop)
+    wd = workdir(f"{prop}-{tier}")
+    build_harness(["wire"])
+    gen, gr = tlc_generate("c13", 0, 0, f"{prop}-gen")
+    cases = gen["cases"] if only_cases is None else only_cases
+    cpath = os.path.join(wd, "cases.json")
+    json.dump({"cases": cases}, open(cpath, "w"))
+    trace = os.path.join(wd, "c13.trace")
+    run_harness("wire", ["c13", cpath], trace)
+    stats, viols = validate_trace("WireTrace", trace, prop, f"{prop}-{tier}", TRACE_CFG, nchunks=4, independent=True)
+    ntempl = len(set(json.loads(l)["tmpl"] for l in open(trace)))
+    return finish(prop, tier, t0, verdict, stats, viols, gr,
+                  {"samples": [json.loads(open(trace).readline())["doc"], cases[len(cases) // 2]], "rewrite_subsets": len(cases),
+                   "message_templates": ntempl, "exhaustive": True,
+                   "rule": "message templates (server hello; ok / rpc-error / data / empty data / bare replies; load-configuration results "
+                           "ok / errors / warning+ok) x every subset of 7 information-preserving rewrites (prefix vs default namespace, "
+                           "inter-element white space, padding of token text, comments, attribute order and quoting, XML declaration, "
+                           "empty-element form), each parsed by the real session / reply readers; the outcome (value or error class) must "
+                           "equal that of the plain serialisation; non-trivial = at least one rewrite applied"},
+                  ["the data of <get> is a raw fragment by design and is compared by its XML information content",
+                   "the agent's configuration readers are exercised by C16 (statement shapes) rather than here"],
+                  lambda k: cases[k] if isinstance(k, int) and k < len(cases) else None, trace)
+
+def check_c10(tier, only_cases=None):
+    t0 = time.time(); prop = "C10"
+    verdict = Verdict(prop)
+    wd = workdir(f"{prop}-{tier}")
+    build_harness(["wire"])
+    gen, gr = tlc_generate("c10", 3 if tier == "thorough" else 2, 0, f"{prop}-gen")
+    cases = gen["cases"] if only_cases is None else only_cases
+    cpath = os.path.join(wd, "cases.json")
+    json.dump({"cases": cases}, open(cpath, "w"))
+    trace = os.path.join(wd, "c10.trace")
+    run_harness("wire", ["c10", cpath], trace)
+    stats, viols = validate_trace("WireTrace", trace, prop, f"{prop}-{tier}", TRACE_CFG, nchunks=8, independent=True)
+    return finish(prop, tier, t0, verdict, stats, viols, gr,
+                  {"samples": [cases[0], cases[len(cases) // 2], cases[-1]], "parameter_value_cases": len(cases), "exhaustive": True,
+                   "rule": "15 text-valued parameters (tokens, log message, instance name, XPath in get / get-config, URLs, text / JSON / set "
+                           "configuration payloads, XML fragments as filter / edit-config / copy-config content) x every string of up to 2 "
+                           "(thorough 3) character classes out of plain, <, >, &, quote, apostrophe, the delimiter, non-ASCII, spaces; the "
+                           "captured bytes are parsed by the harness' own strict XML 1.0 parser; TLC checks one delimiter at the end, "
+                           "well-formedness, recovered = given; non-trivial = request reached the wire with a non-empty value"},
+                  ["the harness' XML parser (harness/src/xmlgen.rs) is the trusted base for well-formedness and for reading values back",
+                   "namespace well-formedness is not demanded (the client's requests carry no xmlns)",
+                   "fragments are built by the caller already escaped; a fragment containing the delimiter cannot be framed at all and is not generated as markup"],
+                  lambda k: cases[k] if isinstance(k, int) and k < len(cases) else None, trace)
+
 def check(prop, tier):
-    return {"C08": check_c08, "C09": check_c09, "C12": check_c12}[prop](tier)
+    return {"C10": check_c10, "C08": check_c08, "C09": check_c09, "C12": check_c12, "C13": check_c13}[prop](tier)
 
 def replay(prop, path):
     payload = json.load(open(path))
     c = payload.get("case")
     if prop == "C09":
         return check_c09("quick", only=c)
-    return {"C08": check_c08, "C12": check_c12}[prop]("quick", only_cases=[c])
+    return {"C10": check_c10, "C08": check_c08, "C12": check_c12, "C13": check_c13}[prop]("quick", only_cases=[c] if prop != "C13" else [[], c])
